@@ -367,7 +367,7 @@ class FuzzySelectedUnion(SameArrayShapeMixin, Command):
             stacked_mask = it.itviews[0]
 
         stacked_arr = numpy.ma.array(
-            numpy.vstack([arr.data for arr in arrays]),
+            numpy.stack([arr.data for arr in arrays]),
             mask=stacked_mask.copy(),  # The array is un-writable (`.sort` will fail) without `.copy()`
         )
 
@@ -472,7 +472,7 @@ class FuzzyXOr(SameArrayShapeMixin, Command):
             stacked_mask = it.itviews[0]
 
         stacked_arr = numpy.ma.array(
-            numpy.vstack([arr.data for arr in arrays]),
+            numpy.stack([arr.data for arr in arrays]),
             mask=stacked_mask.copy(),
         )
 
